@@ -78,7 +78,14 @@ func (s *server) HandleRequest(ctx *types.HttpContext) {
 		if sid := ctx.Query().Peek("sid"); sid != "" {
 			server_log.Debug("setting new request for existing client")
 			if socket, ok := s.Clients().Load(sid); ok {
-				socket.Transport().OnRequest(ctx)
+				// the session may have completed an upgrade since the request was
+				// verified: its new transport serves no plain HTTP requests and
+				// would leave this one unanswered for ever
+				if transport := socket.Transport(); transport.HandlesUpgrades() {
+					s.emitAbortRequest(ctx, BAD_REQUEST, map[string]any{"name": "TRANSPORT_MISMATCH", "transport": ctx.Query().Peek("transport"), "previousTransport": transport.Name()})
+				} else {
+					transport.OnRequest(ctx)
+				}
 			} else {
 				abortRequest(ctx, UNKNOWN_SID, map[string]any{"sid": sid})
 			}
